@@ -154,6 +154,14 @@ def effects_of(fn):
                                                                             "parse_command_line", "get_option_value"):
                 out.append(((n["callee"]["name"]), ".call", ", ".join(opt_norm(gen.expr_text(a, 0, fn)) for a in n.get("args") or [])[:120],
                             guard_of(fn, n, par)))
+    # calls from one validation step to another: which checks run, and under which condition
+    byk0 = _fn_by_key()
+    for n in walk(fn["body"]):
+        if n.get("k") in ("CallExpr", "CXXMemberCallExpr"):
+            c = n.get("callee") or {}
+            if c.get("key") in byk0 and (c.get("name") or "").startswith("validate_") and not fn["file"].endswith("main.cpp"):
+                out.append((c["name"], ".call", ", ".join(opt_norm(gen.expr_text(a, 0, fn)) for a in n.get("args") or [])[:120],
+                            guard_of(fn, n, par)))
     # calls that update a variable of the caller through a non-const reference parameter (advance_offset(current_offset, ...))
     byk = _fn_by_key()
     for n in walk(fn["body"]):
